@@ -192,7 +192,7 @@ pub fn evt_json(program: &Program, e: &Event<E>) -> J {
     }
 }
 
-fn hook_json(ev: &hook::Event) -> J {
+fn hook_json(program: &Program, heap: &ExecHeap, ev: &hook::Event) -> J {
     match ev {
         hook::Event::Run { pid } => json!({"op": "run", "p": pid}),
         hook::Event::Units { pid, units } => json!({"op": "units", "p": pid, "n": units}),
@@ -203,8 +203,8 @@ fn hook_json(ev: &hook::Event) -> J {
             targets,
             now,
         } => json!({"op": "select_init", "p": pid, "recv": sources, "ts": targets, "now": now}),
-        hook::Event::SelectComplete { pid, source } => {
-            json!({"op": "select_complete", "p": pid, "src": source + 1})
+        hook::Event::SelectComplete { pid, source, value } => {
+            json!({"op": "select_complete", "p": pid, "src": source + 1, "v": pv(program, heap, value)})
         }
         hook::Event::FilterCall {
             pid,
@@ -520,9 +520,14 @@ impl Sim {
             } else {
                 self.worker_snapshot(w)
             };
+            let ops_json: Vec<J> = {
+                let view = self.workers[w].verif_executor().verif_view();
+                let heap = ExecHeap(&view.contents);
+                ops.iter().map(|o| hook_json(program, &heap, o)).collect()
+            };
             let mut rec = json!({"k": "worker", "w": w, "now": now, "q": q.min(1_000_000),
                 "consumed": consumed, "free": free,
-                "ops": ops.iter().map(hook_json).collect::<Vec<_>>(),
+                "ops": ops_json,
                 "emitted": emitted, "post": post});
             if let Some(c) = crash {
                 rec["crash"] = json!(c);
@@ -696,11 +701,28 @@ impl Sim {
                     None => break,
                 }
             }
-            self.env_step(ALL, ALL);
+            self.env_step_all();
             for w in 0..nw {
                 self.worker_step(w, ALL, q);
             }
             steps += 1 + nw;
+        }
+    }
+
+    /// `Environment::step` with everything visible, decomposed into its single-event steps
+    /// (worker 0's events first, as the real loop collects them).
+    pub fn env_step_all(&mut self) {
+        let nw = self.nworkers();
+        let mut any = false;
+        for w in 0..nw {
+            let n = self.evt_len(w);
+            for _ in 0..n {
+                self.env_step(w, 1);
+                any = true;
+            }
+        }
+        if !any && self.backend_pending() {
+            self.env_step(0, 0);
         }
     }
 
@@ -733,9 +755,6 @@ impl Sim {
                 let ev = self.evt_len(w);
                 if ev > 0 {
                     moves.push(Step::Env { w, n: 1 });
-                    if ev > 1 {
-                        moves.push(Step::Env { w, n: ALL });
-                    }
                 }
                 if self.dead[w] {
                     continue;
